@@ -628,6 +628,14 @@ class SReal:
     def __format__(s, spec):
         return '<real>'
 
+    def __round__(s, ndigits=None):
+        if ndigits is not None:
+            raise Unsupported('round(x, ndigits)')
+        h = s.z + z3.RealVal('1/2')
+        f = z3.ToInt(h)
+        tie = z3.ToReal(f) == h
+        return SInt(z3.If(z3.And(tie, f % 2 == 1), f - 1, f))     # round half to even, as Python does
+
     def __float__(s):
         raise Unsupported('float() of symbolic real')
 
